@@ -1,3 +1,7 @@
 import ArtGen.Kernels
 import ArtGen.Control
 import ArtGen.Fusion
+import ArtGen.VAT
+import ArtGen.Dual
+import ArtGen.Topo
+import ArtGen.Falcon
